@@ -113,12 +113,16 @@ fn main() {
             p.max_workers = Some(8);
             p.max_shrink_iters = 4;
             parts.push(p);
+            let mut p = make_part("real-resets-then-service", "CONV/sock", cli.cases(8, 300), props_sock2::c08_resets_strategy, |_| (), |w, c| props_sock2::c08_resets_test(w, c));
+            p.max_workers = Some(4);
+            p.max_shrink_iters = 3;
+            parts.push(p);
             let mut p = make_part("real-slow-body", "CONV/sock", cli.cases(16, 600), props_sock2::c08_slow_strategy, |_| (), |w, c| props_sock2::c08_slow_test(w, c));
             p.max_workers = Some(8);
             p.max_shrink_iters = 4;
             parts.push(p);
             (
-                "part real-slow-body: two connections, two application threads; A's response body (HTTP/1.0, TE: identity or chunked streaming; length declared or not) comes from a reader that stalls at its start or after 10 bytes until B has its answer (gives up after 4 s); B's handler answers once A's is inside respond(); oracle (re-measured): B's answer arrives while A's reader is still stalled; part real-idle: real TCP/UNIX sockets: 1-6 connections that are open but silent (no byte sent yet) or stalled in the middle of a request head, then 1-6 connections with complete requests; oracle (differential, re-measured): every complete request is answered while the idle connections stay open; a violation needs, twice in a row on fresh servers, a request that got no answer for 5 s and got it as soon as the idle connections were closed; non-trivial: >= 5 connections",
+                "part real-resets-then-service: 1-11 TCP connections reset (SO_LINGER 0) before the server accepts them - queued before it starts, or against the running server - then 1-3 ordinary connections, each of which must be accepted and its request delivered within 3 s (re-measured); part real-slow-body: two connections, two application threads; A's response body (HTTP/1.0, TE: identity or chunked streaming; length declared or not) comes from a reader that stalls at its start or after 10 bytes until B has its answer (gives up after 4 s); B's handler answers once A's is inside respond(); oracle (re-measured): B's answer arrives while A's reader is still stalled; part real-idle: real TCP/UNIX sockets: 1-6 connections that are open but silent (no byte sent yet) or stalled in the middle of a request head, then 1-6 connections with complete requests; oracle (differential, re-measured): every complete request is answered while the idle connections stay open; a violation needs, twice in a row on fresh servers, a request that got no answer for 5 s and got it as soon as the idle connections were closed; non-trivial: >= 5 connections",
                 vec!["socket engine: only positive re-measured evidence of a dependence on another connection ending counts as a violation; anything else that is slow is inconclusive"],
             )
         }
